@@ -197,10 +197,45 @@ impl<'i> Probe<'i> {
             let mut out = vec![0u8; raw.len() + 16];
             let mut wb = WriteBuf::new(&mut out);
             ACCESSOR.with(|a| a.set("to_tlv"));
+            let mut by_to_tlv: Option<Vec<u8>> = Option::None;
             if e.to_tlv(&tag, &mut wb).is_ok() {
                 let o = wb.as_slice();
                 if o.len() > raw.len() || o != &raw[..o.len()] {
                     self.reencode_diff = Some(("TLVElement::to_tlv", hex(&o[..o.len().min(16)])));
+                }
+                by_to_tlv = Some(o.to_vec());
+            }
+            // ... and so does re-encoding through the element's stream of TLV items
+            {
+                let mut wb = WriteBuf::new(&mut out);
+                ACCESSOR.with(|a| a.set("tlv_iter"));
+                let mut ok = true;
+                let mut n = 0usize;
+                for t in e.tlv_iter(tag.clone()) {
+                    n += 1;
+                    match t {
+                        Ok(t) if n <= 2 * raw.len() + 4 => {
+                            if wb.tlv(&t.tag, &t.value).is_err() {
+                                ok = false;
+                                break;
+                            }
+                        }
+                        _ => {
+                            ok = false;
+                            break;
+                        }
+                    }
+                }
+                if ok {
+                    // (the element's own bytes are what the direct re-encoding reproduced)
+                    let o = wb.as_slice();
+                    // (a stray end-of-container marker is not a value: nothing to compare)
+                    let stray_end = raw.first().map(|c| c & 0x1f == 0x18).unwrap_or(false);
+                    if let Some(want) = by_to_tlv.as_ref().filter(|_| !stray_end) {
+                        if o != &want[..] {
+                            self.reencode_diff = Some(("ToTLV::tlv_iter", format!("{} bytes instead of {}: {}", o.len(), want.len(), hex(&o[..o.len().min(24)]))));
+                        }
+                    }
                 }
             }
             if let Ok(v) = e.value() {
